@@ -79,6 +79,51 @@ func init() {
 		cw := ex.fn(rrel, "reusableConn", "closeWithErr")
 		okPool = okPool && cw != nil && contains(stmtStrings(ex, cw.Body), "delete(c.t.conns, c)") && contains(stmtStrings(ex, cw.Body), "delete(c.t.idleConns, c)")
 		ex.setBool("c08DeadConnsLeavePool", okPool, true, "closed pipeline connections are dropped in getReservedExchanger; a failing reusable connection removes itself from conns and idleConns")
+		// ---- what getNewConn hands to the branch that sets isNewConn: the connection it has dialed, nothing else
+		{
+			gn := ex.fn(rrel, "ReuseConnTransport", "getNewConn")
+			okDialed := false
+			if gn != nil {
+				ss := stmtStrings(ex, gn.Body)
+				cnt := func(x string) (n int) {
+					for _, s := range ss {
+						if s == x {
+							n++
+						}
+					}
+					return
+				}
+				var armBody []string
+				arms, sends, rets := 0, 0, 0
+				ast.Inspect(gn.Body, func(n ast.Node) bool {
+					switch v := n.(type) {
+					case *ast.CommClause:
+						if v.Comm != nil && ex.str(v.Comm) == "res := <-dialChan" {
+							arms++
+							for _, st := range v.Body {
+								armBody = append(armBody, ex.str(st))
+							}
+						}
+					case *ast.SendStmt:
+						if ex.str(v.Chan) == "dialChan" {
+							sends++
+						}
+					case *ast.ReturnStmt:
+						if len(v.Results) == 2 && ex.str(v.Results[0]) != "nil" {
+							rets++ // a return that hands out a connection
+						}
+					}
+					return true
+				})
+				body := ex.str(gn.Body)
+				okDialed = arms == 1 && len(armBody) == 1 && armBody[0] == "return res.c, res.err" && rets == 1 &&
+					sends == 1 && cnt("c, err := t.dialFunc(dialCtx)") == 1 && cnt("rc = t.newReusableConn(c)") == 1 &&
+					strings.Contains(body, "dialChan <- dialRes{c: rc, err: err}") &&
+					!strings.Contains(body, "getIdleConn") && !strings.Contains(body, "idleConns")
+			}
+			ex.setBool("c08ReuseNewConnIsTheDialedOne", okDialed, gn != nil,
+				"ReuseConnTransport.getNewConn: the only connection it returns is the one its own dial produced (`return res.c, res.err` of the single value sent on dialChan, built from t.dialFunc); it never looks into the idle pool")
+		}
 		// ---- the hand-over of the queries queued on a dialing pipeline connection to the dialed one: the order of the
 		// statements of the `case <-...dialFinished:` arms, read as data (top-level statements of the arm, printed)
 		const lrel = "pkg/upstream/transport/conn_lazy_dial.go"
